@@ -111,6 +111,7 @@ void  mx_note_skipped(const char *what);
 int   mx_replay_print(const mx_result_t *r);
 /* per-case watchdog seconds (default 20) */
 extern int mx_case_timeout_s;
+extern int env_entropy_fail;
 extern void (*mx_child_init)(void);
 extern void (*mx_on_abnormal)(const char *desc, int status, mx_result_t *r);
 /* parse standard driver args; fills cfg; returns replay descriptor or NULL */
